@@ -430,6 +430,7 @@ fn deep_run(seed: u64, run: u64, shared: &world::KeyEntry<V512>) -> RunOutcome {
             if let Some((class, detail)) = judge_salts(&labelled, "real generator, calls starting side by side") {
                 let mut doc = plan.to_json();
                 doc.as_object_mut().unwrap().insert("deep".into(), json!(true));
+                doc.as_object_mut().unwrap().insert("probabilistic".into(), json!(true));
                 out.violations.push(Violation { property: PROP, class, detail: format!("deep run {}: {}", run, detail), replay: doc, run: (1 << 41) + 100 + run });
             }
         }
@@ -587,7 +588,7 @@ fn run_b_outcome(ctx: &Ctx, which: u64) -> RunOutcome {
     let mut st = Stats::default();
     st.inc("runs");
     st.inc("runs.b_real_generator");
-    let doc = json!({"kind": "real_generator", "n": n, "key_seed_hex": hex(&ctx.key_seed_b), "threads": t, "calls": c, "procs": p, "pcalls": pc});
+    let doc = json!({"kind": "real_generator", "probabilistic": true, "n": n, "key_seed_hex": hex(&ctx.key_seed_b), "threads": t, "calls": c, "procs": p, "pcalls": pc});
     match run_b(n, ctx.key_seed_b, t, c, p, pc, &mut st) {
         Err((class, detail)) => {
             if class.starts_with("harness") {
@@ -720,7 +721,7 @@ fn run_b_mixed(ctx: &Ctx, seed: u64) -> RunOutcome {
             property: PROP,
             class,
             detail,
-            replay: json!({"kind": "real_generator_turns", "seed": seed, "tier": "quick", "observed_salts": all.iter().take(24).map(|(l, s)| format!("{} {}", l, hex(s))).collect::<Vec<_>>()}),
+            replay: json!({"kind": "real_generator_turns", "probabilistic": true, "seed": seed, "tier": "quick", "observed_salts": all.iter().take(24).map(|(l, s)| format!("{} {}", l, hex(s))).collect::<Vec<_>>()}),
             run: (1 << 40) + 3,
         });
     }
@@ -837,7 +838,7 @@ fn batch_a(rep: &mut Report, tier: Tier, seed: u64) -> Option<()> {
             property: PROP,
             class,
             detail,
-            replay: json!({"kind": "real_generator_volume", "seed": seed, "tier": tier.name()}),
+            replay: json!({"kind": "real_generator_volume", "probabilistic": true, "seed": seed, "tier": tier.name()}),
             run: (1 << 40) + 2,
         });
     }
